@@ -113,8 +113,11 @@ impl Script {
     }
 }
 
-/// A sequence of iterator calls richer than a Script: step i = (code >> 3i) & 7 with
-/// 0 next, 1 next_back, 2 nth(1), 3 nth_back(1), 4 nth(2), 5 nth_back(2), 6 nth(usize::MAX), 7 nth_back(usize::MAX).
+/// A sequence of iterator calls richer than a Script: step i = (code >> 4i) & 15 with
+/// 0 next, 1 next_back, 2 nth(1), 3 nth_back(1), 4 nth(2), 5 nth_back(2), 6 nth(usize::MAX), 7 nth_back(usize::MAX),
+/// and the short-circuiting consumers (an impl may override them, or `try_fold`/`try_rfold` underneath them), each
+/// with a counting predicate: 8 find(2nd), 9 rfind(2nd from the back), 10 position(3rd), 11 rposition(2nd from
+/// the back), 12 any(2nd), 13 all(fails at the 1st), 14 try_fold(breaks at the 3rd), 15 try_rfold(breaks at the 2nd).
 #[derive(Clone, Copy, PartialEq, Eq, Hash, Debug)]
 pub struct Steps {
     pub code: u64,
@@ -122,19 +125,52 @@ pub struct Steps {
 }
 impl Steps {
     pub fn step(&self, i: usize) -> u8 {
-        ((self.code >> (3 * i)) & 7) as u8
+        ((self.code >> (4 * i)) & 15) as u8
     }
-    /// every sequence of 1..=max_len steps over the 8 step kinds
+    fn of(kinds: &[u8]) -> Steps {
+        let mut code = 0u64;
+        for (i, k) in kinds.iter().enumerate() {
+            code |= (*k as u64) << (4 * i);
+        }
+        Steps { code, len: kinds.len() as u8 }
+    }
+    /// every sequence of 1..=max_len steps over the 8 positional step kinds, plus every sequence of 1..=2 steps
+    /// over all 16 kinds that contains a short-circuiting consumer
     pub fn all_up_to(max_len: usize) -> Vec<Steps> {
         let mut v = vec![];
         for l in 1..=max_len {
-            for code in 0..(1u64 << (3 * l)) {
-                v.push(Steps { code, len: l as u8 });
+            let mut ks = vec![0u8; l];
+            loop {
+                v.push(Steps::of(&ks));
+                let mut i = 0;
+                while i < l {
+                    ks[i] += 1;
+                    if ks[i] < 8 {
+                        break;
+                    }
+                    ks[i] = 0;
+                    i += 1;
+                }
+                if i == l {
+                    break;
+                }
+            }
+        }
+        for k in 8..16u8 {
+            v.push(Steps::of(&[k]));
+        }
+        if max_len >= 2 {
+            for a in 0..16u8 {
+                for b in 0..16u8 {
+                    if a >= 8 || b >= 8 {
+                        v.push(Steps::of(&[a, b]));
+                    }
+                }
             }
         }
         v
     }
-    /// (is_back, skip count or None for usize::MAX)
+    /// (is_back, skip count or None for usize::MAX) of a positional kind
     pub fn decode(k: u8) -> (bool, Option<usize>) {
         match k {
             0 => (false, Some(0)),
@@ -145,6 +181,20 @@ impl Steps {
             5 => (true, Some(2)),
             6 => (false, None),
             _ => (true, None),
+        }
+    }
+    /// short-circuiting kinds: (from the back, how many elements the call consumes when there are enough)
+    pub fn short_circuit(k: u8) -> Option<(bool, usize)> {
+        match k {
+            8 => Some((false, 2)),
+            9 => Some((true, 2)),
+            10 => Some((false, 3)),
+            11 => Some((true, 2)),
+            12 => Some((false, 2)),
+            13 => Some((false, 1)),
+            14 => Some((false, 3)),
+            15 => Some((true, 2)),
+            _ => None,
         }
     }
 }
